@@ -47,7 +47,7 @@ def run_one(mid, patch, props, runs, workers):
                 env0.pop("TVSIM_REPO", None)
                 b = subprocess.run([os.path.join(HERE, "check"), prop, "--replay", rp], env=env0, capture_output=True, text=True)
                 res[prop]["replay_on_changed_tree_exit"] = a.returncode
-                res[prop]["replay_same_digest"] = "digest=" in a.stdout and "differs" not in a.stdout
+                res[prop]["replay_same_digest"] = "digest=" in a.stdout and "digest differs" not in a.stdout
                 res[prop]["replay_on_unchanged_tree_exit"] = b.returncode
     finally:
         shutil.rmtree(s, ignore_errors=True)
